@@ -1,11 +1,23 @@
 # Per-property configuration of ./check: which harness packages run, which extracted chk function judges
 # their cases, what the reason codes mean, what the evidence says about rule / assumptions / trusted base.
+FWD_REASONS = {
+    "1": "requests seen by the target are not a prefix of what the client sent (dropped / duplicated / reordered / altered)",
+    "2": "responses seen by the client are not a prefix of what the target sent",
+    "3": "a non-streaming direction carried more than one message",
+    "4": "the call returned without closing the outgoing stream it created",
+    "5": "the call did not return although every adapter honours the context (hang)",
+    "6": "success reported but not all of the target's messages were delivered",
+    "7": "the reported status has no source (not the target's, not an adapter error, not the context's)"}
 PROPS = {
     "C12": {
         "parts": [
             {"name": "decode", "pkg": "c12", "chk": "chk_c12_decode"},
+            {"name": "enforce", "pkg": "c12", "chk": "chk_c12_enforce", "args": ["enforce"]},
+            {"name": "forward", "pkg": "c01", "chk": "chk_fwd"},
         ],
-        "reasons": {"decode": {"1": "decodeTimeout's result differs from the gRPC timeout grammar (1-8 digits + unit, value = digits*unit)"}},
+        "reasons": {"decode": {"1": "decodeTimeout's result differs from the gRPC timeout grammar (1-8 digits + unit, value = digits*unit)"},
+                    "enforce": {"1": "the target observed no deadline, or one later than the client asked for", "2": "the call outlived its deadline by more than the margin (or ended before it)", "3": "a call stopped by its deadline did not end with DeadlineExceeded / 504"},
+                    "forward": FWD_REASONS},
         "rule": "decode: shape sweep (length 0..10 x final byte 0..255 x digit classes x one intruder at every position) + random strings; "
                 "non-trivial = string of length>=2 ending in one of HMSmun; distinct by full case text",
         "level_text": "Coq theorems: the decoder accepts exactly the gRPC timeout grammar and yields digits*unit (saturating at int64); the regenerated unit table equals the spec table. Tied to the code by an exact differential on ~27k strings per run. Enforcement part (deadline wins, never forwarded) proved on the forwarder LTS; wall-clock margin is measured only (partial).",
@@ -117,14 +129,6 @@ PROPS["C08"] = {
     "assumptions": ["real-size (4 MiB) frames are checked by length arithmetic only (part big); byte-level correspondence uses payloads up to 2000 bytes"],
 }
 
-FWD_REASONS = {
-    "1": "requests seen by the target are not a prefix of what the client sent (dropped / duplicated / reordered / altered)",
-    "2": "responses seen by the client are not a prefix of what the target sent",
-    "3": "a non-streaming direction carried more than one message",
-    "4": "the call returned without closing the outgoing stream it created",
-    "5": "the call did not return although every adapter honours the context (hang)",
-    "6": "success reported but not all of the target's messages were delivered",
-    "7": "the reported status has no source (not the target's, not an adapter error, not the context's)"}
 PROPS["C01"] = {
     "parts": [{"name": "forward", "pkg": "c01", "chk": "chk_fwd"}],
     "reasons": {"forward": FWD_REASONS},
